@@ -194,6 +194,9 @@ func faultsFor(rpc string, rng *vh.RNG) []fault {
 	for _, c := range hcalls {
 		fs = append(fs, fault{kind: "hcall", name: c})
 	}
+	// environment step, not a fault: the host's chain grows between its inputs and the renter's
+	// signatures (message 2 is held back while the blocks are mined)
+	fs = append(fs, fault{kind: "midmine", pos: 2, name: "1"}, fault{kind: "midmine", pos: 2, name: "pow2"})
 	fs = append(fs, corruptions(rpc)...)
 	return fs
 }
